@@ -484,7 +484,9 @@ func FuzzyMatchV2(caseSensitive bool, normalize bool, forward bool, input *util.
 			}
 		} else {
 			class = charClassOfNonAscii(char)
-			if !caseSensitive && class == charUpper {
+			if !caseSensitive {
+				// Not only upper-case letters have a lower-case form (e.g. title-case
+				// digraphs); fold as the other match functions do
 				char = unicode.To(unicode.LowerCase, char)
 			}
 			if normalize {
